@@ -267,15 +267,42 @@ def graph_state(g):
     return {'graph': ser_graph(g), 'cons': bool(g.is_consistent()), 'length': safe_length(g), 'den': den_graph(g)}
 
 
+def build_chains(raw, share):
+    """OpChain objects of a raw chain list; with `share`, equal entries are the SAME Python object (a user who lists a term
+    object several times); the model sees values only"""
+    from pytenet.opchain import OpChain
+    out, seen = [], {}
+    for o, q, c, i in raw:
+        key = json.dumps([o, q, c, i])
+        if share and key in seen:
+            out.append(seen[key]); continue
+        ch = OpChain(list(o), list(q), dec(c), i)
+        seen[key] = ch
+        out.append(ch)
+    return out
+
+
+def chains_raw(chains):
+    return [[[int(x) for x in ch.oids], [int(x) for x in ch.qnums], enc(ch.coeff), int(ch.istart)] for ch in chains]
+
+
 def impl_from_opchains(op):
     from pytenet.opchain import OpChain
     from pytenet.opgraph import OpGraph
 
     def f():
-        chains = [OpChain(o, q, dec(c), i) for o, q, c, i in op['chains']]
+        chains = build_chains(op['chains'], op.get('share', False))
         g = OpGraph.from_opchains(chains, op['length'], op['oid_identity'])
         st = graph_state(g)
         st['den_ref'] = den_chains(op['chains'], op['length'], op['oid_identity'])
+        # the chain list is an operand: it must not be modified, and compiling it a second time gives the same graph
+        # (keys present only when violated, so that the reply of the functional model stays comparable)
+        if chains_raw(chains) != chains_raw(build_chains(op['chains'], False)):
+            st['operand_modified'] = chains_raw(chains)
+        elif op.get('share', False) or op.get('twice', False):
+            g2 = OpGraph.from_opchains(chains, op['length'], op['oid_identity'])
+            if ser_graph(g2) != st['graph']:
+                st['second_call_differs'] = ser_graph(g2)
         return st
     return py_call(lambda: with_alarm(10.0, f))
 
